@@ -241,7 +241,8 @@ type Obs struct {
 	GasGiven uint64
 	GasLeft  uint64
 	Err      error
-	Refund   uint64
+	Refund   uint64 // refund counter when the depth-0 call returned
+	RefundIn uint64 // refund counter when it started (must be 0: Finalise clears it between transactions)
 	Bal      []*big.Int
 	Nonce    []uint64
 }
@@ -270,6 +271,9 @@ func (t *Tracer) Reset() { t.Cur = nil }
 
 func (t *Tracer) CaptureStart(from common.Address, to common.Address, create bool, input []byte, gas uint64, value *big.Int) error {
 	t.Cur = &Obs{Fired: true, Create: create, GasGiven: gas}
+	if t.State != nil {
+		t.Cur.RefundIn = t.State.GetRefund()
+	}
 	return nil
 }
 
